@@ -3,8 +3,13 @@
 
 package simrt
 
+import "unsafe"
+
 // RaceBuild reports whether the binary was built with -race.
 const RaceBuild = false
 
 func raceDisable() {}
 func raceEnable()  {}
+
+func raceRelease(p unsafe.Pointer) {}
+func raceAcquire(p unsafe.Pointer) {}
